@@ -103,4 +103,31 @@ theorem formatTokensFull_eq (cfg : Config) (alnum : Bytes → Bool) (raw : List 
       simp only at hw
       rw [hw]
 
+/-- after the stage with the search inside no token that starts a line carries spaces -/
+theorem wrapStageFull_no_spaces_at_line_start (cfg : Config) (lines : List Line) (ft ft' : FT) (sols : List (Nat × Nat × Sol))
+    (h : wrapStageFull cfg lines ft = some (ft', sols)) : ∀ t ∈ ft', t.fmt.nl > 0 → t.fmt.sp = 0 := by
+  have key : ∀ x : FT, ∀ t ∈ zeroLineStartSpaces x, t.fmt.nl > 0 → t.fmt.sp = 0 := by
+    intro x t ht hn
+    unfold zeroLineStartSpaces at ht
+    obtain ⟨u, _, rfl⟩ := List.mem_map.1 ht
+    split
+    · rfl
+    · rename_i hne
+      split at hn
+      · exact absurd ‹_› hne
+      · exact absurd hn hne
+  unfold wrapStageFull at h
+  simp only at h
+  split at h
+  · simp at h
+  · split at h
+    · simp at h; obtain ⟨rfl, _⟩ := h; exact key _
+    · split at h
+      · simp at h
+      · split at h
+        · simp at h
+        · split at h
+          · simp at h
+          · simp at h; obtain ⟨rfl, _⟩ := h; exact key _
+
 end Pasfmt
